@@ -221,7 +221,7 @@ theorem pointer_pass_through (v : Val) (lib : Val → Val) :
   run_simp []
 
 example : runArg Kind.native.fspec (Kind.native.cspec false) true (.arr [1, 2, 3]) (.arg fun _ => .arr [4, 5, 6])
-    = .ok ⟨some (.arr [1, 2, 3]), .arr [4, 5, 6], 0⟩ := by decide
+    = .ok ⟨some (.arr [1, 2, 3]), .arr [4, 5, 6], 0⟩ := by decide +kernel
 
 /-- implied arguments: `size(a)`, `len(s)`, `len_trim(s)` of another argument, as the library gets them -/
 theorem implied_values (a : List Int) (t : Buf) :
@@ -389,7 +389,7 @@ theorem native_array_pass_through (a : List Int) (f : List Int → List Int) :
   run_simp []
 
 example : runArg Kind.native.fspec (Kind.native.cspec false) true (.arr [])
-    (.arg fun v => match v with | .arr x => .arr (x.map (· * 2)) | v => v) = .ok ⟨some (.arr []), .arr [], 0⟩ := by decide
+    (.arg fun v => match v with | .arr x => .arr (x.map (· * 2)) | v => v) = .ok ⟨some (.arr []), .arr [], 0⟩ := by decide +kernel
 
 @[simp] theorem toNat_map_cast (sh : List Nat) : sh.map (Int.toNat ∘ Int.ofNat) = sh := by
   induction sh with
@@ -1046,16 +1046,16 @@ example : (IExpr.bin 2 (.const 1) (.neg (.const 1))).render (fun _ => 0) = [.num
 
 example : runArg Kind.charOut.fspec (Kind.charOut.cspec false) true (.buf [113, 113, 113, 113])
     (.arg fun _ => .buf ([97, 98] ++ NUL :: [7])) = .ok ⟨some (.buf [113, 113, 113, 113]), .buf [97, 98, 32, 32], 0⟩ := by
-  decide
+  decide +kernel
 example : runArg Kind.charInout.fspec (Kind.charInout.cspec true) true (.buf [97, 32, 32])
     (.arg fun _ => .buf ([65] ++ NUL :: [0, 0])) = .ok ⟨some (.buf [97, 0, 256, 256]), .buf [65, 32, 32], 0⟩ := by
-  decide
+  decide +kernel
 example : runArg Kind.charResult.fspec (Kind.charResult.cspec true) true (.buf [256, 256, 256])
-    (.result (.buf ([104, 105] ++ NUL :: []))) = .ok ⟨none, .buf [104, 105, 32], 0⟩ := by decide
+    (.result (.buf ([104, 105] ++ NUL :: []))) = .ok ⟨none, .buf [104, 105, 32], 0⟩ := by decide +kernel
 example : runArg Kind.stringResult.fspec (Kind.stringResult.cspec false) true (.buf [256, 256])
-    (.result (.str [120, 121, 122])) = .ok ⟨none, .buf [120, 121], 0⟩ := by decide
+    (.result (.str [120, 121, 122])) = .ok ⟨none, .buf [120, 121], 0⟩ := by decide +kernel
 example : runArg Kind.charScalarResult.fspec (Kind.charScalarResult.cspec false) true (.buf [256, 256])
-    (.result (.int 65)) = .ok ⟨none, .buf [65, 32], 0⟩ := by decide
+    (.result (.int 65)) = .ok ⟨none, .buf [65, 32], 0⟩ := by decide +kernel
 example : Kind.charIn ∈ allKinds ∧ [1, 12, 31, 40, 51] ∈ Kind.charIn.cpaths true ∧ [2, 12, 31, 40, 51] ∈ Kind.charIn.fpaths := by
   decide
 /-- a method `int meth(int a, int n +implied(..), int *h +hidden+intent(out))`: API `(obj, a)`, C gets all four -/
